@@ -461,6 +461,21 @@ def special_flag(F):
                 setters.add(fn["path"])
             conds = guard_conditions(fn["body"], n)
             tested = any(pol is True and op_test(c) for pol, c in conds if pol in (True, False))
+            if not tested:
+                # the test may be delegated to a checker that panics itself: `Self::check_mode_applies_to(BlockAlt, op);`
+                # before the write, on every path
+                from vlib.facts import uncond_before as _ub
+                for P in walk(fn["body"]):
+                    if P.get("k") in ("Call", "MethodCall") and not any(y is n for y in walk(P)):
+                        ib = (P.get("inlined") or {}).get("body")
+                        if ib is None:
+                            tgt_ = F.by_path.get(P.get("inst") or P.get("callee") or "")
+                            ib = tgt_[0].get("body") if tgt_ and len(tgt_) == 1 and (tgt_[0].get("self_adt") or "").endswith(("::InstrumentationFlag", "::Instruction")) else None
+                        if ib is None:
+                            continue
+                        if op_test(ib) and any(y.get("ty") == "!" or "panic" in str(y.get("exp") or "") for y in walk(ib)) and _ub(fn["body"], P, n)[0]:
+                            tested = True
+                            break
             other = any(pol in (True, False) and any(y.get("k") == "Field" and y["name"] == "op" for y in walk(c)) for pol, c in conds)
             if not tested and other:
                 r.undecided("%s: block_alt is set under a test on the opcode of a shape that is not recognised" % fn["path"])
